@@ -206,8 +206,11 @@ CountCand(k) == {FromNat(n) : n \in {0, 1, k.w - 1, k.w, k.w + 1, 63, 64, 65, 25
 Counts(k, ck) == {c \in CountCand(k) : Canon(ck, c)}
 
 -----------------------------------------------------------------------------
-(* Strings over the alphabet {1,2,3} (rendered a, b, c) and booleans          *)
+(* Strings over the alphabet {1,2,3}, rendered a, b, e-acute (U+00E9, two bytes in   *)
+(* UTF-8), and booleans.  Comparison is lexicographic on bytes; because UTF-8 is    *)
+(* prefix-free and order-preserving this is the letter-wise order below (checked).  *)
 Alpha == {1, 2, 3}
+Rune(l) == CASE l = 1 -> 97 [] l = 2 -> 98 [] l = 3 -> 233
 Strs  == {<<>>} \cup {<<x>> : x \in Alpha} \cup {<<x, y>> : x, y \in Alpha} \cup {<<1, 2, 3>>, <<1, 2, 1>>}
 RECURSIVE StrLt(_, _)
 StrLt(s, t) ==
@@ -215,6 +218,30 @@ StrLt(s, t) ==
     ELSE IF s = <<>> THEN TRUE
     ELSE IF s[1] # t[1] THEN s[1] < t[1]
     ELSE StrLt(Tail(s), Tail(t))
+
+\* string(i) for an integer i: the UTF-8 encoding of the code point i, U+FFFD when i is
+\* not a valid code point
+UTF8(cp) ==
+    IF cp < 0 \/ cp > 1114111 \/ (cp >= 55296 /\ cp <= 57343) THEN <<239, 191, 189>>
+    ELSE IF cp < 128 THEN <<cp>>
+    ELSE IF cp < 2048 THEN <<192 + (cp \div 64), 128 + (cp % 64)>>
+    ELSE IF cp < 65536 THEN <<224 + (cp \div 4096), 128 + ((cp \div 64) % 64), 128 + (cp % 64)>>
+    ELSE <<240 + (cp \div 262144), 128 + ((cp \div 4096) % 64), 128 + ((cp \div 64) % 64), 128 + (cp % 64)>>
+UTF8Dec(b) ==
+    CASE Len(b) = 1 -> b[1]
+      [] Len(b) = 2 -> (b[1] - 192) * 64 + (b[2] - 128)
+      [] Len(b) = 3 -> (b[1] - 224) * 4096 + (b[2] - 128) * 64 + (b[3] - 128)
+      [] Len(b) = 4 -> (b[1] - 240) * 262144 + (b[2] - 128) * 4096 + (b[3] - 128) * 64 + (b[4] - 128)
+\* the value of a canonical x of kind k as a TLC integer when it is below 2^21, else -1
+SmallNat(k, x) == IF IsNeg(k, x) \/ x[3] # 0 \/ x[4] # 0 \/ x[5] # 0 \/ x[2] >= 64 THEN -1 ELSE x[1] + x[2] * B
+StrOfInt(k, x) == UTF8(SmallNat(k, x))
+FromCp(n) == <<n % B, n \div B, 0, 0, 0>>
+CpVals(k) == {v \in {FromCp(n) : n \in {2047, 2048, 55295, 55296, 57343, 57344, 65533, 1114111, 1114112}} : Canon(k, v)}
+RECURSIVE Bytes(_)
+Bytes(s) == IF s = <<>> THEN <<>> ELSE UTF8(Rune(s[1])) \o Bytes(Tail(s))
+Runes(s) == [i \in 1..Len(s) |-> Rune(s[i])]
+RECURSIVE SeqLt(_, _)
+SeqLt(s, t) == StrLt(s, t)      \* the same lexicographic order, used on byte sequences
 Bools == {<<0>>, <<1>>}                     \* kept as sequences so that `a` has one sort
 Tr(x) == x = <<1>>
 
@@ -224,8 +251,9 @@ Tr(x) == x = <<1>>
 VARIABLE job
 NoKind == K(8, FALSE)
 Init == job = [lvl |-> 0, fam |-> "none", k |-> NoKind, a |-> Zero]
-IntFams == {"arith", "div", "cmp", "shift", "unary", "conv"}
-AVals(f, k) == IF f = "str" THEN Strs ELSE IF f = "bool" THEN Bools ELSE Vals(k)
+IntFams == {"arith", "div", "cmp", "shift", "unary", "conv", "strconv"}
+AVals(f, k) == IF f = "str" THEN Strs ELSE IF f = "bool" THEN Bools
+               ELSE IF f = "strconv" THEN Vals(k) \cup CpVals(k) ELSE Vals(k)
 Next ==
     \/ /\ job.lvl = 0
        /\ \E f \in Fams : \E k \in (IF f \in IntFams THEN Kinds ELSE {NoKind}) :
@@ -256,8 +284,10 @@ Rows(f, k, a) ==
            {[red |-> InRed(k, a), neg |-> NegK(k,a), not |-> NotK(k,a), pos |-> a, inc |-> IncK(k,a), dec |-> DecK(k,a)]}
       [] f = "conv" ->
            {[k2 |-> k2, red |-> InRed(k, a), v |-> Conv(k, k2, a)] : k2 \in Kinds}
+      [] f = "strconv" ->
+           {[red |-> TRUE, s |-> StrOfInt(k, a)]}
       [] f = "str" ->
-           {[b |-> b, add |-> a \o b, eq |-> a = b, ne |-> a # b, lt |-> StrLt(a, b),
+           {[b |-> b, bytes |-> Bytes(a), runes |-> Runes(a), add |-> a \o b, eq |-> a = b, ne |-> a # b, lt |-> StrLt(a, b),
              le |-> StrLt(a, b) \/ a = b, gt |-> StrLt(b, a), ge |-> StrLt(b, a) \/ a = b] : b \in Strs}
       [] f = "bool" ->
            {[b |-> b, land |-> Tr(a) /\ Tr(b), lor |-> Tr(a) \/ Tr(b), eq |-> a = b, ne |-> a # b,
@@ -360,4 +390,16 @@ SaneStr == Done("str") =>
                CASE x = "lt" -> StrLt(job.a, b) [] x = "eq" -> job.a = b [] x = "gt" -> StrLt(b, job.a)}) = 1
        /\ Len(job.a \o b) = Len(job.a) + Len(b)
        /\ (b # <<>> => StrLt(job.a, job.a \o b))
+       /\ StrLt(job.a, b) = SeqLt(Bytes(job.a), Bytes(b))        \* letter order = byte order
+       /\ Bytes(job.a \o b) = Bytes(job.a) \o Bytes(b)
+
+SaneStrConv == Done("strconv") =>
+    LET cp == SmallNat(job.k, job.a)  u == StrOfInt(job.k, job.a)
+        valid == cp >= 0 /\ cp <= 1114111 /\ ~(cp >= 55296 /\ cp <= 57343) IN
+    /\ Len(u) \in 1..4
+    /\ \A i \in 1..Len(u) : u[i] \in 0..255 /\ (i > 1 => u[i] \in 128..191)
+    /\ (valid => UTF8Dec(u) = cp)
+    /\ (~valid => u = <<239, 191, 189>>)
+    /\ (Len(u) = 1 <=> u[1] < 128) /\ (Len(u) = 2 => u[1] \in 194..223)
+    /\ (Len(u) = 3 => u[1] \in 224..239) /\ (Len(u) = 4 => u[1] \in 240..244)
 =============================================================================
